@@ -2885,6 +2885,7 @@ impl Node {
     /// The node tells us that it is forgetting a channel
     pub fn forget_channel(&self, channel_id: &ChannelId) -> Result<(), Status> {
         let mut stub_found = false;
+        let mut ready_forgotten = false;
         // As per devrandom the lock order should be node_state -> channels -> channel
         let mut node_state: MutexGuard<'_, NodeState> = self.get_state();
         let mut channels = self.get_channels();
@@ -2904,6 +2905,7 @@ impl Node {
                 ChannelSlot::Ready(chan) => {
                     info!("forget_channel {}", channel_id);
                     chan.forget()?;
+                    ready_forgotten = true;
                 }
             };
             if channel_id.oid() > node_state.dbid_high_water_mark {
@@ -2920,6 +2922,16 @@ impl Node {
             self.persister.delete_channel(&self.get_id(), &channel_id).unwrap_or_else(|err| {
                 panic!("could not delete channel {}: {:?}", &channel_id, err)
             });
+        }
+        if ready_forgotten {
+            // The forget flag lives in the channel's monitor, which is persisted with the
+            // tracker.  Release our locks first, the tracker lock comes before them.
+            drop(channels);
+            drop(node_state);
+            let tracker = self.get_tracker();
+            self.persister
+                .update_tracker(&self.get_id(), &tracker)
+                .map_err(|_| internal_error("tracker persist failed"))?;
         }
         return Ok(());
     }
